@@ -282,28 +282,6 @@ theorem cnt_le_cntL {a : Nat} {l : List Node} {x : Node} (h : x ∈ l) : cnt a x
 
 /-! ### keys: what uniqueness of identities depends on in a mapping -/
 
-def isMap : SKind → Bool
-  | .dict | .sparse => true
-  | _ => false
-
-mutual
-/-- a class whose mapping classes (at any depth) declare every key once -/
-def swf : Schema → Bool
-  | .mk info _ subs => (!isMap info.kind || decide ((subs.map Schema.key).Nodup)) && swfL subs
-def swfL : List Schema → Bool
-  | [] => true
-  | f :: fs => swf f && swfL fs
-end
-
-mutual
-/-- a tree whose mappings hold at most one child per key, all of whose classes are `swf` -/
-def kok : Node → Bool
-  | .mk _ s kids => swf s && (!isMap s.kind || decide ((kids.map Node.key).Nodup)) && kokL kids
-def kokL : List Node → Bool
-  | [] => true
-  | k :: ks => kok k && kokL ks
-end
-
 theorem swfL_iff (l : List Schema) : swfL l = true ↔ ∀ f ∈ l, swf f = true := by
   induction l with
   | nil => simp [swfL]
